@@ -148,6 +148,7 @@ class Guarded(Contract):
     """guarded(cond)(fn)(*args): whatever fn does to the guard state, and however it exits,
     the state after the call is the state before it."""
     name = "pysnark.runtime:guarded.<locals>._guarded.<locals>.__guarded"
+    probe = True              # the contract is on the CALL guarded(cond)(fn)(*args), however the wrapper is built inside
     assigns = GUARD_STATE
     vprops = MODE_STATE_PROPS
     fprops = MODE_STATE_PROPS
@@ -169,6 +170,11 @@ class Guarded(Contract):
                     for exitkind in ("return", "Exception"):
                         out.append(dict(outer=outer, ie0=ie0, exit=exitkind, bits=2, cond=cond,
                                         **({} if exitkind == "return" else {"raises_only": True})))
+                # the wrapped function calls ITSELF once (a recursive guarded function): each activation restores
+                # what IT found, the outermost one the state from before the whole call
+                for exitkind in ("return", "Exception"):
+                    out.append(dict(outer=outer, ie0=ie0, exit=exitkind, bits=2, reenter=True,
+                                    **({} if exitkind == "return" else {"raises_only": True})))
         return out
 
     def setup(self, c, cfg):
@@ -186,7 +192,16 @@ class Guarded(Contract):
         self._ret = ret
         exitkind = cfg["exit"]
 
+        depth = [0]
+        holder = []
+
         def body(*a, **k):
+            depth[0] += 1
+            if cfg.get("reenter") and depth[0] == 1:
+                try:
+                    holder[0](*a, **k)
+                except BaseException:      # noqa  the inner activation's exception is not the outer one's business
+                    pass
             # havoc: an arbitrary body may leave ANY guard state behind ...
             rt.guard = c.operand("junk_guard")
             rt._ignore_errors = SymBool(z3.Bool("k_junk_ie"))
@@ -197,7 +212,9 @@ class Guarded(Contract):
             raise {"Exception": ValueError, "BaseException": _Boom, "SystemExit": SystemExit,
                    "KeyboardInterrupt": KeyboardInterrupt}[exitkind]("from the body")
         self._body = body
-        return rt.guarded(cond)(body), (1, 2), {"kw": 3}
+        wrapped = rt.guarded(cond)(body)
+        holder.append(wrapped)
+        return wrapped, (1, 2), {"kw": 3}
 
     def use_stub(self, c, *a, **k):
         return False
